@@ -173,6 +173,11 @@ let model_line out w line =
              Hashtbl.replace w.canvases id (cv_set (Hashtbl.find w.canvases id) (n_of_int x) (n_of_int y) e)
          | "resize" -> let a = num t in let b = num t in
              Hashtbl.replace w.canvases id (cv_resize (Hashtbl.find w.canvases id) (n_of_int a) (n_of_int b))
+         | "copy" -> Hashtbl.replace w.canvases id (Hashtbl.find w.canvases (num t))
+         | "fill" -> let e = mk_elem t in let c = Hashtbl.find w.canvases id in
+             Hashtbl.replace w.canvases id { c with grid = List.map (fun _ -> e) c.grid }
+         | "iterset" -> let i = num t in let e = mk_elem t in let c = Hashtbl.find w.canvases id in
+             Hashtbl.replace w.canvases id { c with grid = List.mapi (fun k x -> if k = i then e else x) c.grid }
          | "dump" -> let c = Hashtbl.find w.canvases id in
              out (Printf.sprintf "KSZ %d %d %d" (int_of_n c.cw) (int_of_n c.ch) (List.length c.grid));
              List.iter (fun e -> out ("KE " ^ pr_elem e)) c.grid
@@ -350,6 +355,11 @@ let oracle_mode () =
                Hashtbl.replace canvases id (cv_set (Hashtbl.find canvases id) (n_of_int x) (n_of_int y) e)
            | "resize" -> let a = num t in let b = num t in
                Hashtbl.replace canvases id (cv_resize (Hashtbl.find canvases id) (n_of_int a) (n_of_int b))
+           | "copy" -> Hashtbl.replace canvases id (Hashtbl.find canvases (num t))
+           | "fill" -> let e = mk_elem t in let c = Hashtbl.find canvases id in
+               Hashtbl.replace canvases id { c with grid = List.map (fun _ -> e) c.grid }
+           | "iterset" -> let i = num t in let e = mk_elem t in let c = Hashtbl.find canvases id in
+               Hashtbl.replace canvases id { c with grid = List.mapi (fun k x -> if k = i then e else x) c.grid }
            | _ -> ())
       | "S" ->
           let id = num t in
